@@ -1147,6 +1147,9 @@ class SQLObject(with_metaclass(declarative.DeclarativeMeta, object)):
 
         # _creating is special, see _SO_setValue
         if self.sqlmeta._creating or self.sqlmeta.lazyUpdate:
+            # Validate every value before changing anything, so that
+            # a failing value leaves the object untouched.
+            toCache = {}
             for name, value in kw.items():
                 from_python = getattr(self, '_SO_from_python_%s' % name, None)
                 if from_python:
@@ -1157,6 +1160,8 @@ class SQLObject(with_metaclass(declarative.DeclarativeMeta, object)):
                 to_python = getattr(self, '_SO_to_python_%s' % name, None)
                 if to_python:
                     value = to_python(dbValue, self._SO_validatorState)
+                toCache[name] = value
+            for name, value in toCache.items():
                 setattr(self, instanceName(name), value)
 
             self._SO_createValues.update(kw)
@@ -1189,6 +1194,10 @@ class SQLObject(with_metaclass(declarative.DeclarativeMeta, object)):
             # read the user's mind.  We'll combine everything
             # else into a single UPDATE, if necessary.
             toUpdate = {}
+            # The new values are cached only after the UPDATE succeeded,
+            # so that a failing value or statement leaves the object
+            # showing what the row holds.
+            toCache = {}
             for name, value in kw.items():
                 from_python = getattr(self, '_SO_from_python_%s' % name, None)
                 if from_python:
@@ -1198,8 +1207,7 @@ class SQLObject(with_metaclass(declarative.DeclarativeMeta, object)):
                 to_python = getattr(self, '_SO_to_python_%s' % name, None)
                 if to_python:
                     value = to_python(dbValue, self._SO_validatorState)
-                if self.sqlmeta.cacheValues:
-                    setattr(self, instanceName(name), value)
+                toCache[name] = value
                 toUpdate[name] = dbValue
             for name, value in extra.items():
                 try:
@@ -1221,6 +1229,9 @@ class SQLObject(with_metaclass(declarative.DeclarativeMeta, object)):
                 args = [(self.sqlmeta.columns[name].dbName, value)
                         for name, value in toUpdate]
                 self._connection._SO_update(self, args)
+            if self.sqlmeta.cacheValues:
+                for name, value in toCache.items():
+                    setattr(self, instanceName(name), value)
         finally:
             self._SO_writeLock.release()
 
